@@ -985,6 +985,13 @@ class StarvationGuard(BaseException):
     pass
 
 
+class FalsyBoom(KeyError):
+    """an exception whose instances are falsy (it carries a collection of sub-errors and has a length: here, none)"""
+
+    def __len__(self):
+        return 0
+
+
 def asgi_scenario(ctx, cls_name, n_items, item_delay, send_delay, t_disc, ping, raise_at, agen, empties=0,
                   cleanup_raises=False, send_fail_at=None, busy=False, request_messages=0, spec_version=None, cleanup_takes=0.0, same_object=False):
     """busy: an endless producer that never awaits between its yields (like the class docstring's example) against a
@@ -1025,7 +1032,7 @@ def asgi_scenario(ctx, cls_name, n_items, item_delay, send_delay, t_disc, ping, 
                 if item_delay:
                     await asyncio.sleep(item_delay)
                 if raise_at == i:
-                    raise KeyError("boom")
+                    raise (FalsyBoom if n_items % 2 else KeyError)("boom")  # (an exception object may be falsy - it is still the producer's exception)
                 yielded.append(i)
                 yield make(i)
         finally:
